@@ -260,9 +260,10 @@ class QuarterSplineDisk(SplineRound):
 class HalfSplineDisk(QuarterSplineDisk):
     """Sketch for Half oval, elliptical and circular shapes"""
 
+    # indexes of operations as ordered by self.grid: cores first, then shell
     chops: ClassVar = [
-        [1],  # axis 0
-        [1, 2, 5],  # axis 1
+        [2],  # axis 0
+        [2, 3, 5],  # axis 1
     ]
 
     def __init__(
@@ -296,7 +297,8 @@ class HalfSplineDisk(QuarterSplineDisk):
     @property
     def grid(self) -> List[List[Face]]:
         if len(self.faces) > 3:
-            return [self.faces[:2], self.faces[2:]]
+            # faces of the two merged quarters: core, shell, shell, core, shell, shell
+            return [self.faces[::3], [face for i, face in enumerate(self.faces) if not i % 3 == 0]]
         else:
             return super().grid
 
